@@ -64,6 +64,9 @@ def run(ctx):
     reuse(ctx, "C09.R7", [c17.r1], "unknown frame types interleaved with the handshake are consumed whole and skipped (an unconsumed rest is a decode error that resets the connection mid-handshake)")
 
 
+_WHOLE_CAPTURES: set = set()  # names bound by `Cls() as name` sub-patterns (they stand for `<message>.sub_message`)
+
+
 def _pattern_classes(ctx, m, p):
     out, caps = [], []
     while isinstance(p, ast.MatchClass):
@@ -73,6 +76,12 @@ def _pattern_classes(ctx, m, p):
         for sub in list(p.patterns) + list(p.kwd_patterns):
             if isinstance(sub, ast.MatchClass):
                 nxt = sub
+            elif isinstance(sub, ast.MatchAs) and isinstance(sub.pattern, ast.MatchClass):
+                # `Cls(...) as name`: the class pattern continues the chain, the name captures the matched sub-object
+                nxt = sub.pattern
+                if sub.name:
+                    caps.append(sub.name)
+                    _WHOLE_CAPTURES.add(sub.name)
             elif isinstance(sub, ast.MatchAs) and sub.name:
                 caps.append(sub.name)
         p = nxt
@@ -239,7 +248,7 @@ def r1(ctx, modname, cases, mr):
             ctx.check(ok, R, f"{gen}:step{i + 1}:{name}:processes", m, c.node.pattern, f"the payload captured by the pattern is handed to {proc}", "; ".join(f"{d}({', '.join(a)})" for d, a, _ in c.calls))
         else:
             st_cv = [x for s in c.node.body for x in ast.walk(s) if isinstance(x, ast.Assign) and dotted(x.targets[0]) == "self._console_version"]
-            ctx.check(len(st_cv) == 1 and norm_text(st_cv[0].value) == f"{mr.params[-1]}.sub_message", R, f"{gen}:step{i + 1}:{name}:processes", m, c.node.pattern, "the console version is stored", "not stored")
+            ctx.check(len(st_cv) == 1 and (norm_text(st_cv[0].value) == f"{mr.params[-1]}.sub_message" or (isinstance(st_cv[0].value, ast.Name) and st_cv[0].value.id in c.captures and st_cv[0].value.id in _WHOLE_CAPTURES)), R, f"{gen}:step{i + 1}:{name}:processes", m, c.node.pattern, "the console version is stored", "not stored")
         if i + 1 < len(steps):
             nreq = steps[i + 1][1]
             ok = len(c.sends) == 1 and c.sends[0][0] == nreq and c.sends[0][1] == "RETRY_CONNECTED"
@@ -384,6 +393,20 @@ def _range_shape(ctx, m, call, var):
     return ok, norm_text(call)
 
 
+def _ctor_args(ci, call, raw=False):
+    """arguments of a constructor call by parameter name (positional ones bound through __init__'s signature)"""
+    out = {}
+    init = ci.methods.get("__init__") if ci is not None else None
+    names = [a.arg for a in init.args.args[1:]] if init is not None else []
+    for i, a in enumerate(call.args):
+        if i < len(names) and not isinstance(a, ast.Starred):
+            out[names[i]] = a if raw else norm_text(a)
+    for k in call.keywords:
+        if k.arg:
+            out[k.arg] = k.value if raw else norm_text(k.value)
+    return out
+
+
 def r5(ctx, modname):
     R = "C09.R5"
     g = GEN[modname]
@@ -400,7 +423,7 @@ def r5(ctx, modname):
         if len(sts) == 1 and norm_text(sts[0].targets[0]) == f"self._zones[{k}]" and isinstance(sts[0].value, ast.Call):
             c = sts[0].value
             ci = ctx.repo.resolve_class(m, c.func)
-            kw = {x.arg: norm_text(x.value) for x in c.keywords}
+            kw = _ctor_args(ci, c)
             num_kw = "group_number" if gen == "at4" else "zone_number"
             ok = ci is not None and ci.name == g["zone_cls"] and kw.get(num_kw) == k and kw.get("zone_name") == v and kw.get("socket") == "self._socket"
             found = norm_text(sts[0])[:140]
@@ -427,8 +450,8 @@ def r5(ctx, modname):
     if len(sts) == 1 and isinstance(sts[0].value, ast.Call):
         c = sts[0].value
         ci = ctx.repo.resolve_class(m, c.func)
-        kw = {x.arg: norm_text(x.value) for x in c.keywords}
-        zones_kw = next((x.value for x in c.keywords if x.arg == "zones"), None)
+        kw = _ctor_args(ci, c)
+        zones_kw = _ctor_args(ci, c, raw=True).get("zones")
         zones_name = zones_kw.id if isinstance(zones_kw, ast.Name) else None
         ok = norm_text(sts[0].targets[0]) == f"self._air_conditioners[{v}.ac_number]" and ci is not None and ci.name == g["ac_cls"] and kw.get("ac_number") == f"{v}.ac_number" and zones_kw is not None and kw.get("ac_ability") == v and kw.get("socket") == "self._socket"
     ctx.check(ok, R, f"{gen}:ability:ac-construction", m, lp, f"self._air_conditioners[{v}.ac_number] = {g['ac_cls']}(ac_number={v}.ac_number, zones=<the AC's zones>, ac_ability={v}, socket=self._socket)", norm_text(sts[0])[:200] if sts else "missing")
